@@ -42,3 +42,39 @@ fn kb_get_by_index() {
     }
     assert!(array_length(doc.as_slice()) == Some(n));
 }
+
+#[kani::proof]
+#[kani::unwind(45)]
+#[kani::stub(crate::parser::parse_value, no_text)]
+fn xp_gbi_scalars() {
+    let items = [any_scalar(2), any_scalar(2), any_scalar(2)];
+    let n: usize = kani::any();
+    kani::assume(n <= 3);
+    let doc = layout_array(&items[..n]);
+    let idx: usize = kani::any();
+    kani::assume(idx <= 4);
+    let got = get_by_index(doc.as_slice(), idx);
+    if idx < n {
+        let want = items[idx].doc();
+        assert!(opt_eq(&got, Some(&want)));
+    } else {
+        assert!(got.is_none());
+    }
+}
+
+#[kani::proof]
+#[kani::unwind(45)]
+#[kani::stub(crate::parser::parse_value, no_text)]
+fn xp_gbi_fixed3() {
+    let items = [any_scalar(2), any_scalar(2), any_scalar(2)];
+    let doc = layout_array(&items);
+    let idx: usize = kani::any();
+    kani::assume(idx <= 3);
+    let got = get_by_index(doc.as_slice(), idx);
+    if idx < 3 {
+        let want = items[idx].doc();
+        assert!(opt_eq(&got, Some(&want)));
+    } else {
+        assert!(got.is_none());
+    }
+}
